@@ -181,7 +181,7 @@ CLAIMS.update({
     ),
     'C08': (
         'registry exhaustiveness/signature agreement, effect summaries, endianness rule',
-        'NARROW claim: the core of the statement (the returned bits decode to a*b or a^2, result widths, Karatsuba thresholds) is NOT decided. Decided: every MulMode/SquareMode member has a registered generator with the common signature and generate_* dispatches on it, forwarding big_endian; '
+        'The core of the statement (the returned bits decode to a*b or a^2) is decided by instantiation only (C08.NUM, see Round 4 at the end), not for all widths. Decided structurally: every MulMode/SquareMode member has a registered generator with the common signature and generate_* dispatches on it, forwarding big_endian; '
         'multipliers and squarers only add fresh gates (add-only calls on the host, C02 refuses existing labels), never mutate their operand lists, reverse operands at entry and convert every returned product back under big_endian on every return path; placeholder tables do not leak on the loop-bounded paths. C08.KARATSUBA: split-and-recombine multipliers/squarer add the middle term at shift mid (mid + 1 for 2ab) and the high product at 2*mid, and the terms are products of the right halves; compressor gadgets (C07.GADGET) and C07.TRANSPOSE are part of this check.',
         'DESIGN.md 4 C08',
     ),
@@ -209,7 +209,7 @@ ADDENDA = {
     'C05': ' Round 2: C05.FOLD folds tseytin_transformation as a whole over a bounded family of model circuits and output selections and decides each clause set against the circuit by unit propagation from the input variables.',
     'C06': ' Round 2: C06.DEC on two-output models (same gate twice, later gate first); C06.FIX with a fixed type outside the basis / against normalisation; C06.ENC on degenerate sizes (0 gates, 1 input) where no structure exists and the clause set must be unsatisfiable.',
     'C07': ' Round 2: C07.FOLD also instantiates add_sum_two_numbers and add_sum_two_numbers_with_shift (small shifts) for widths <= 3, every operand value, with the while-loop bit counters replaced by contract gates (decided relative to that contract); C07.ARGS forbids de-duplicating containers on operand-derived values.',
-    'C08': ' Round 2: C08.FOLD instantiates add_mul_alter (widths <= 3 x 3), the two-number adders and add_sub_two_numbers (Karatsuba\'s subtraction) with contract gates for the bit counters. NOT decided and demonstrably missed (seeded changes C08-5, C08-6): numerical exactness of the while-loop multipliers (default, Karatsuba, Dadda, Wallace, 2^k-1) and of the squarers.',
+    'C08': ' Round 2: C08.FOLD instantiates add_mul_alter (widths <= 3 x 3), the two-number adders and add_sub_two_numbers (Karatsuba\'s subtraction) with contract gates for the bit counters. (At that point the while-loop multipliers and the squarers were not decided and two seeded changes, C08-5 and C08-6, were missed; see Round 4.)',
     'C09': ' Round 2: C09.FOLD additionally instantiates add_subtract_with_compare (widths <= 3 x 3; difference and borrow flag a < b), add_div_mod (widths <= 3; (0,0) for b = 0) and add_sqrt (widths <= 5, bit counters by contract) for every operand value and both endiannesses on a host with gates of its own.',
     'C10': ' Round 2: C02.COPY (no store into circuit state or Block argument aliases a caller-visible list) is run as a shared rule.',
     'C12': ' Round 2: C12.ITER folds input_iterator_with_fixed_sum itself (run to completion: every assignment of the weight exactly once, each yielded list a fresh object; F26 fixed); the circuit model of C12.FOLD has gates and a users index.',
@@ -245,13 +245,31 @@ ADDENDA3 = {
     'C20': ' Round 3: C20.FOLD folds top_sort, dfs, bfs (every start set, both directions, hooks that read the live state) and the cycle check on instances of the repository\'s Circuit class over model circuits incl. cyclic ones; the KAHN/STATE/DUAL/ENTRY/UNVIS/CYCLE shape rules are soft.' + SOFT,
 }
 
+# sentences appended after round 3 of the seeded changes and round 2 of the refactorings (DESIGN.md 10.4, 10.5)
+ADDENDA4 = {
+    'C01': ' Round 4: the model circuits of C01.EVAL are built through the repository\'s own constructors (_emplace_gate / set_outputs), so the users index is the repository\'s bookkeeping; add_gate_from_tt is folded for all 16 codes (operands distinct and identical) instead of matched by the spelling of its call; the pattern simulator is folded as a real instance of its class.',
+    'C02': ' Round 4: histories declare block outputs outside the member set; the invariant follows the statement literally (block members and inputs must exist; declared outputs need not).',
+    'C04': ' Round 4: hand-made circuits are also run stored users-first; the rules of C06 (encoding, fixed gates, decoder) are run as shared rules because the fold replaces the synthesiser by an oracle.',
+    'C05': ' Round 4: the satisfiability query is also folded on circuits without outputs (empty formula); the dispatch table of the transformation is located by what it is (the dictionary from gate-type constants to clause templates), not by its name.',
+    'C07': ' Round 4: C07.NUM instantiates the bit counters (add_sum_n_bits in both bases, add_sum_n_bits_easy, add_sum_pow2_m1) and the weighted-sum schedulers AS THEY STAND -- while-loop work lists, sorted queues -- for up to 8 operands / a set of weight vectors incl. a repeated operand, every operand value, both endiannesses: the result decodes to the number of True operands, levels pairwise distinct, weighted sum preserved, requested basis respected, host untouched. The WORKLIST/TRANSPOSE shape rules are soft under it.',
+    'C08': ' Round 4: the NARROW claim of the first build is widened: C08.NUM instantiates every multiplier of the dispatch table (default, alter, Dadda, Wallace, 2^k-1, both Karatsuba variants) and both squarers as they stand (reduction loops, recursion) and evaluates the resulting circuit: every operand value for widths up to 4 x 4 (5 x 3, 3 x 6; more in the thorough tier), a FIXED SAMPLE of operand values (corners, single bits, alternating patterns, seeded random) at the widths where the algorithms change behaviour -- 9 x 7, Karatsuba 18 x 18 / 20 x 20 / 21 x 17 (24 x 15, 40 x 40 thorough), squarers 12 / 17 / 19 (24 / 33 / 48 thorough). The two seeded changes declined earlier (C08-5, C08-6) are reported by it. Not decided: other widths; operand values outside the sample at the sampled widths.',
+    'C10': ' Round 4: the composition folds run the repository\'s own top_sort (not an oracle order) on attached circuits that include constants carrying operands and a pass-through output; wrappers with add_prefix=False; a created block cut out again by its own interface (make_block_from_slice) gives the same member set.',
+    'C13': ' Round 4: miter pairs with 3-10 outputs (thorough: up to 14) differing in exactly one output position, every position in turn; operands with constants carrying operands; the repository\'s own top_sort.',
+    'C14': ' Round 4: converting a copy (copy.copy(c).into_bench(), what drawing with as_bench does) leaves the original untouched.',
+    'C15': ' Round 4: the model circuits are built through the repository\'s own constructors.',
+    'C16': ' Round 4: the dictionary writer/reader round trip is instantiated at the boundaries of the length fields (2^15-1, 2^15, 2^16-1 bytes for keys and values).',
+    'C17': ' Round 4: C17.SHIP: the first clause of the statement is no longer wholly undecided -- the two shipped files are split into their 349,724 entries each on the host side following the dictionary layout (width constants read from the tree) and decode_circuit is folded over a spread of about 100 entries per file (first, longest, an even stride, every key length): well formed, inside the basis of the file, truth table equal to the key, key in normal form. Not decided: the entries outside the sample.',
+    'C18': ' Round 4: pipelines built directly as TransformerComposition([...]) (alone, in lists, as right operand of the pipe).',
+    'C20': ' Round 4: cyclic states with several outputs (the cycle below an output that other gates read; a cycle no output reaches).',
+}
+
 def main():
     checks = []
     for p in ALL:
         if p not in CLAIMS:
             continue
         tech, text, ref = CLAIMS[p]
-        text = text + ADDENDA.get(p, '') + ADDENDA3.get(p, '')
+        text = text + ADDENDA.get(p, '') + ADDENDA3.get(p, '') + ADDENDA4.get(p, '')
         checks.append({
             'property_id': p,
             'quick_cmd': f'{PY} -m cirbo_verif check {p} --tier quick',
